@@ -128,7 +128,9 @@ func c13Run(c *h.Ctx) {
 		return false
 	}
 	// half of the injected faults are "reply lost": the backend computed the step, the caller only sees the error
-	rig.ReplyLost = func(n int, kind string) bool { return (n+int(c.Seed%7)+c.Case)%2 == 0 }
+	rig.ReplyLost = func(n int, kind string) bool { return (n+int(c.Seed%7)+c.Case)%3 == 0 }
+	// a third of them come with the computed state next to the error: the error decides
+	rig.StateWithError = func(n int, kind string) bool { return (n+int(c.Seed%7)+c.Case)%3 == 1 }
 	s, err := h.NewSim(h.SimConfig{Setting: cfg.Setting(false), Interval: 0, Backend: rig}, sr.Int63())
 	if err != nil {
 		c.Inconclusive(err.Error())
@@ -158,9 +160,17 @@ func c13Run(c *h.Ctx) {
 			errEvents = append(errEvents, e.Err)
 		}
 	}
+	released := false
 	script.BeforeAct = func(e *h.Ev, gp int, pid string) bool {
 		if c.Failed() {
 			return false
+		}
+		if c.Case%6 == 5 && !released {
+			// the table is released while the hand runs: no further hand will open, this one is played out and its
+			// failures are reported like any other
+			released = true
+			s.TE.ReleaseTable()
+			c.Feature("released-while-the-hand-runs")
 		}
 		gs := e.T.State.GameState
 		act, chips := pol(s, e.T, gp, pid, gs.Players[gp])
@@ -224,6 +234,9 @@ func c13Run(c *h.Ctx) {
 			c.Feature("fault:" + bc.Kind)
 			if bc.ReplyLost {
 				c.Feature("fault:reply-lost:" + bc.Kind)
+			}
+			if bc.StateWithError {
+				c.Feature("fault:state-with-error:" + bc.Kind)
 			}
 			c.FP(bc.Kind, bc.N)
 		}
@@ -340,7 +353,7 @@ func init() {
 			return map[string]int{"quick": 180, "thorough": 1800}[tier]
 		},
 		RequiredFeatures: func(string) []string {
-			return []string{"fault:ReadyForAll", "fault:PayBlinds", "fault:Next", "fault:CreateGame", "fault:Call", "fault:Fold", "fault:Check", "fault:Allin", "fault:Bet", "fault:Raise", "fault:reply-lost:Raise", "fault:reply-lost:Call", "fault:reply-lost:Next", "engine-step-failure-reported:Next", "engine-step-failure-reported:ReadyForAll", "engine-step-failure-reported:CreateGame", "plan:random", "plan:ordinal"}
+			return []string{"fault:ReadyForAll", "fault:PayBlinds", "fault:Next", "fault:CreateGame", "fault:Call", "fault:Fold", "fault:Check", "fault:Allin", "fault:Bet", "fault:Raise", "fault:reply-lost:Raise", "fault:reply-lost:Call", "fault:reply-lost:Next", "engine-step-failure-reported:Next", "engine-step-failure-reported:ReadyForAll", "engine-step-failure-reported:CreateGame", "plan:random", "plan:ordinal", "released-while-the-hand-runs", "fault:state-with-error:Call"}
 		},
 		CaseTimeout: 120e9,
 		InProc:      2,
